@@ -1,6 +1,6 @@
 (* C08 - Uniquify makes every non-leaf instance unique without changing the design. Property theorems only. *)
 From Coq Require Import List.
-From SV Require Import Base.Base IR.State IR.NS IR.Ops Xform.Clone Xform.Xform Proofs.Inv1a Proofs.Inv2a Proofs.Fresh Proofs.RefK Proofs.XformInv Proofs.UniqInv.
+From SV Require Import Base.Base IR.State IR.NS IR.Ops Xform.Clone Xform.Xform Proofs.Inv1a Proofs.Inv2a Proofs.Fresh Proofs.RefK Proofs.NsInv Proofs.XformInv Proofs.UniqInv.
 Import ListNotations.
 
 (* "running uniquify again changes nothing": when every instance met by the breadth-first walk
@@ -13,18 +13,19 @@ Print Assumptions C08_unique_is_fixpoint.
 (* "the netlist stays well-formed": in every state reachable by editing calls, with any counter
    values and any fuel, a uniquify run that completes leaves every container listing exactly the
    elements that name it as parent, once (the containment invariant of C01), and every definition
-   listing exactly the instances that reference it, once (the reference-set invariant of C02) -
+   listing exactly the instances that reference it, once (the reference-set invariant of C02), and
+   every member of a container having the kind its relation asks for (typing) -
    through every Definition.clone, rename, add_definition and reference change of the walk *)
 Theorem C08_keeps_well_formed : forall ops u f fuel n x',
-  uniquify fuel (mkX (run ops init) u f) n = (x', None) -> Inv1a (st x') /\ Inv2a (st x').
+  uniquify fuel (mkX (run ops init) u f) n = (x', None) -> Inv1a (st x') /\ Inv2a (st x') /\ InvT (st x').
 Proof. exact uniquify_reachable. Qed.
 Print Assumptions C08_keeps_well_formed.
 
 (* the same as a step invariant, from any state that satisfies it *)
 Theorem C08_keeps_well_formed_from : forall fuel x n x',
-  Inv1a (st x) /\ Inv2a (st x) /\ Fresh (st x) /\ RefK (st x) ->
+  Inv1a (st x) /\ Inv2a (st x) /\ Fresh (st x) /\ RefK (st x) /\ InvT (st x) ->
   uniquify fuel x n = (x', None) ->
-  Inv1a (st x') /\ Inv2a (st x') /\ Fresh (st x') /\ RefK (st x').
+  Inv1a (st x') /\ Inv2a (st x') /\ Fresh (st x') /\ RefK (st x') /\ InvT (st x').
 Proof. exact uniquify_inv. Qed.
 Print Assumptions C08_keeps_well_formed_from.
 
